@@ -71,11 +71,9 @@ def seq_axioms():
     # so such axioms are written directly in their resolved form.
     fa([s, x], Contains(s, x) == (IndexOf(s, x) >= 0), [Contains(s, x)])
     fa([s, x], z3.And(IndexOf(s, x) >= -1, IndexOf(s, x) < Len(s)), [IndexOf(s, x)])
-    fa([s, i], z3.Implies(z3.And(0 <= i, i < Len(s)),
-                          z3.And(Contains(s, At(s, i)), 0 <= IndexOf(s, At(s, i)), IndexOf(s, At(s, i)) <= i)),
-       [At(s, i)])
-    # witness of membership; relevancy keeps this from chaining when Contains(s, x) is not asserted
-    fa([s, x], z3.Implies(Contains(s, x), At(s, IndexOf(s, x)) == x), [Contains(s, x)])
+    # "the element at an in-range position is a member (and IndexOf is its first position)" is NOT a
+    # triggered axiom: together with the membership witness it chains forever for positions whose range is
+    # unknown.  It is stated wherever an element term is introduced: see elem_fact() and its callers.
     # Append1
     fa([s, x], z3.And(Len(Append1(s, x)) == Len(s) + 1, At(Append1(s, x), Len(s)) == x), [Append1(s, x)])
     fa([s, x, i], z3.Implies(z3.And(0 <= i, i < Len(s)), At(Append1(s, x), i) == At(s, i)),
@@ -134,16 +132,30 @@ def seq_axioms():
     # partial sums: unfold one step whenever both the partial sum and the next element are mentioned
     fa([s], PSum(s, 0) == 0, [PSum(s, 0)])
     fa([s], PSumI(s, 0) == 0, [PSumI(s, 0)])
-    fa([s, n], z3.Implies(z3.And(0 <= n, n < Len(s)), PSum(s, n + 1) == PSum(s, n) + numr(At(s, n))),
-       [z3.MultiPattern(PSum(s, n), At(s, n))])
-    fa([s, n], z3.Implies(z3.And(0 <= n, n < Len(s)), PSumI(s, n + 1) == PSumI(s, n) + inti(At(s, n))),
-       [z3.MultiPattern(PSumI(s, n), At(s, n))])
+    # (the one-step unfolding of PSum / PSumI is added as a ground fact wherever a contract mentions psum(l, e):
+    #  a triggered axiom for it chains through arithmetic and was observed to loop)
     fa([s], PSum(s, Len(s)) == SumR(s), [SumR(s)])
     fa([s], PSumI(s, Len(s)) == SumI(s), [SumI(s)])
     return A
 
 
 # ---- Val helpers --------------------------------------------------------------------------------
+def psum_facts(s, n):
+    """ground unfolding of PSum(s, n) and PSumI(s, n) by one step"""
+    return [PSum(s, 0) == 0,
+            z3.Implies(z3.And(n > 0, n <= Len(s)), PSum(s, n) == PSum(s, n - 1) + numr(At(s, n - 1)))]
+
+
+def psumi_facts(s, n):
+    return [PSumI(s, 0) == 0,
+            z3.Implies(z3.And(n > 0, n <= Len(s)), PSumI(s, n) == PSumI(s, n - 1) + inti(At(s, n - 1)))]
+
+
+def elem_fact(s, i):
+    """facts about the element at position i of s, valid when 0 <= i < Len(s)"""
+    return z3.And(Contains(s, At(s, i)), 0 <= IndexOf(s, At(s, i)), IndexOf(s, At(s, i)) <= i)
+
+
 def index_fact(s, x):
     """ground instance accompanying every IndexOf(s, x) term the executor creates"""
     return z3.Implies(IndexOf(s, x) >= 0, At(s, IndexOf(s, x)) == x)
